@@ -45,7 +45,12 @@ func runC18(ctx *Ctx) {
 	ctx.Rep.Floor("C18-R4", 10)
 	ruleCanonicalResult(ctx, "C18-R3")
 	if ctx.Primary {
-		ruleKernelLemmas(ctx, "C18-R2", []string{"capnp.canonicalPtr", "capnp.Canonicalize"})
+		// besides the two canonicalisation functions: the byte extent the
+		// data-only bulk copy takes from the source (allocSize: exactly the
+		// list's content, no padding) and the resolution of far and double-far
+		// pointers through which a multi-segment input is read (shared with
+		// C05-R2 and C03-R2) — the canonical bytes must not depend on either
+		ruleKernelLemmas(ctx, "C18-R2", []string{"capnp.canonicalPtr", "capnp.Canonicalize", "capnp.(List).allocSize", "capnp.(*Segment).resolveFarPointer"})
 	}
 	ruleCanonicalElemSize(ctx, "C18-R2e")
 	ruleNoSliceAcrossAlloc(ctx, "C18-R5s")
